@@ -1105,6 +1105,7 @@ def from_const(x):
 def _pure_ext_table():
     import struct as _struct, operator as _operator, binascii as _ba, zlib as _zlib, itertools as _it, functools as _ft
     t = {'struct.pack': _struct.pack, 'struct.unpack': _struct.unpack, 'struct.calcsize': _struct.calcsize, 'struct.unpack_from': _struct.unpack_from, 'struct.iter_unpack': lambda f, b: list(_struct.iter_unpack(f, b)),
+         'bisect.bisect_left': __import__('bisect').bisect_left, 'bisect.bisect_right': __import__('bisect').bisect_right, 'bisect.bisect': __import__('bisect').bisect,
          'binascii.hexlify': _ba.hexlify, 'binascii.unhexlify': _ba.unhexlify, 'binascii.crc_hqx': _ba.crc_hqx, 'binascii.crc32': _ba.crc32,
          'binascii.b2a_hex': _ba.b2a_hex, 'binascii.a2b_hex': _ba.a2b_hex,
          'zlib.crc32': _zlib.crc32, 'zlib.adler32': _zlib.adler32,
@@ -1641,6 +1642,60 @@ class SingleDispatch:
         if not args:
             raise RaiseEx('TypeError', f'{self.f.name} requires at least 1 positional argument')
         return it.call(self.pick(it, args[0]), list(args), dict(kw), n)
+
+
+class ContextManagerFactory:
+    """@contextlib.contextmanager def f(...): calling it gives a context manager driven by the generator: __enter__ runs the body to its
+    yield, __exit__ resumes it - with the exception of the with-body thrown in at the yield when there is one"""
+    not_none = True
+
+    def __init__(self, f):
+        self.f = f
+
+    def abs_key(self):
+        return ('contextmanager', self.f.qual)
+
+    def abs_call(self, it, args, kw, n):
+        iv = it.call(self.f, list(args), dict(kw), n)
+        co = getattr(iv, 'co', None)
+        if co is None:
+            raise Fail(f'contextmanager over {self.f.qual}, which is not a generator function')
+        return GeneratorCM(co)
+
+
+class GeneratorCM:
+    not_none = True
+
+    def __init__(self, co):
+        self.co = co
+
+    def abs_key(self):
+        return ('gencm', id(self))
+
+    def abs_enter(self, it):
+        from .values import StopIter
+        try:
+            return self.co.next()
+        except StopIter:
+            raise RaiseEx('RuntimeError', "generator didn't yield")
+
+    def abs_exit(self, it, exc):
+        from .values import StopIter
+        if exc is None:
+            try:
+                self.co.next()
+            except StopIter:
+                return False
+            raise RaiseEx('RuntimeError', "generator didn't stop")
+        try:
+            self.co.throw(exc)
+        except StopIter:
+            return True                 # the body handled the exception and finished: it is suppressed
+        except RaiseEx as e2:
+            if e2 is exc:
+                return False            # re-raised (or passed through `finally`): the with statement lets it propagate
+            raise
+        raise RaiseEx('RuntimeError', "generator didn't stop after throw()")
 
 
 class MemoFn:
